@@ -1,8 +1,89 @@
 import PyPhysim.Model.Proto
-open PyPhysim.Proto
+import PyPhysim.Model.C14
+open PyPhysim.Proto PyPhysim.C14
 
--- stub: replaced when the C14 model is written
-def handle : List String → String
+/-! Line protocol of the C14 model driver.
+
+```
+hist shape=<n|i3|t2;3|t> ops=g5,g,s7,Si4,St2;3,Sn
+     → one field per state (constructor first, then one per op), separated by " | ":
+       k=<next sample> e=<epoch> shape=<..> prod=<block|-> last=<block|->
+       block = dims(;)/first/count/epoch
+val Fd=f.. Ts=f.. first=<nat> j=<nat> phi=f..,f.. psi=f..,f..
+                                                    → t=f.. re=f.. im=f.. | error:ZeroDivisionError
+                                                      (entry j of a block whose first sample is `first`)
+time Ts=f.. k=<nat> n=<nat>                         → f..,f..,…   (times of samples k .. k+n-1)
+old infl=f.. Ts=f.. ct=f.. n=<nat>                  → len=<nat> ratio=f.. next=f..   (pre-fix stepping)
+```
+-/
+
+def parseDims? (s : String) : Option (List Nat) := parseNatList? s ";"
+
+def parseShape? (s : String) : Option ShapeArg :=
+  if s = "n" then some .none
+  else if s.startsWith "i" then (s.drop 1).toNat?.map .int
+  else if s.startsWith "t" then (parseDims? (s.drop 1).toString).map .tuple
+  else none
+
+def parseOp? (s : String) : Option Op :=
+  if s = "g" then some (.gen none)
+  else if s.startsWith "g" then (s.drop 1).toNat?.map (fun n => .gen (some n))
+  else if s.startsWith "s" then (s.drop 1).toNat?.map .skip
+  else if s.startsWith "S" then (parseShape? (s.drop 1).toString).map .setShape
+  else none
+
+def showDims (d : List Nat) : String := showList toString d ";"
+
+def showBlock : Option Block → String
+  | none => "-"
+  | some b => showDims b.dims ++ "/" ++ toString b.first ++ "/" ++ toString b.count ++ "/" ++ toString b.epoch
+
+def showShape : Option (List Nat) → String
+  | none => "n"
+  | some d => "t" ++ showDims d
+
+def showState (s : State) (prod : Option Block) : String :=
+  "k=" ++ toString s.k ++ " e=" ++ toString s.epoch ++ " shape=" ++ showShape s.shape ++
+  " prod=" ++ showBlock prod ++ " last=" ++ showBlock s.last
+
+/-- states after the constructor and after every op, with the block each produced -/
+def histStates (a : ShapeArg) (ops : List Op) : List String :=
+  let s0 := construct a
+  let rec go (s : State) : List Op → List String
+    | [] => []
+    | op :: rest => showState (step s op) (produced s op) :: go (step s op) rest
+  showState s0 s0.last :: go s0 ops
+
+def handle (toks : List String) : String :=
+  match toks with
+  | "hist" :: rest =>
+    match (kv rest "shape").bind parseShape?, (kv rest "ops").bind (fun s => (fields s ",").mapM parseOp?) with
+    | some a, some ops => " | ".intercalate (histStates a ops)
+    | some a, none => if (kv rest "ops").isNone then " | ".intercalate (histStates a []) else "bad-op"
+    | _, _ => "bad-op"
+  | "val" :: rest =>
+    match (kv rest "Fd").bind parseFloat?, (kv rest "Ts").bind parseFloat?, (kv rest "first").bind String.toNat?,
+          (kv rest "j").bind String.toNat?, (kv rest "phi").bind (parseFloatList? ·), (kv rest "psi").bind (parseFloatList? ·) with
+    | some fd, some ts, some first, some j, some phi, some psi =>
+      if phi.length ≠ psi.length then "bad-op" else
+      let b : Block := { dims := [], first := first, count := j + 1, epoch := 0 }
+      match b.value fd ts (fun _ _ => phi.zip psi) [] j with
+      | .ok (re, im) => "t=" ++ showFloat (sampleTime ts (first + j)) ++ " re=" ++ showFloat re ++ " im=" ++ showFloat im
+      | .error e => "error:" ++ toString e
+    | _, _, _, _, _, _ => "bad-op"
+  | "time" :: rest =>
+    match (kv rest "Ts").bind parseFloat?, (kv rest "k").bind String.toNat?, (kv rest "n").bind String.toNat? with
+    | some ts, some k, some n =>
+      showList showFloat (Block.samples (sampleTime ts) { dims := [n], first := k, count := n, epoch := 0 })
+    | _, _, _ => "bad-op"
+  | "old" :: rest =>
+    match (kv rest "infl").bind parseFloat?, (kv rest "Ts").bind parseFloat?, (kv rest "ct").bind parseFloat?,
+          (kv rest "n").bind String.toNat? with
+    | some infl, some ts, some ct, some n =>
+      let len := oldArangeLen infl ts ct n
+      "len=" ++ toString len ++ " ratio=" ++ showFloat (oldArangeRatio infl ts ct n) ++
+      " next=" ++ showFloat (oldNextTime infl ts ct len)
+    | _, _, _, _ => "bad-op"
   | _ => "bad-op"
 
 def main : IO Unit := runDriver handle
